@@ -26,6 +26,7 @@ func init() {
 			{ID: "C13.R3", Floor: 1, Run: c13r3, Text: "no address-derived values: no conversion unsafe.Pointer → uintptr, no pointer/map/chan/func value passed to a fmt formatting function"},
 			{ID: "C13.R4", Floor: 1, Run: c16r7, Text: "layout extension covers every table of every node, active or not (= C16.R7): a skipped table reads past its layout array, which makes results depend on heap contents"},
 			{ID: "C13.R5", Floor: 2, Run: c17r4, Text: "loaded state is copied, not adopted (= C17.R4): two worlds loaded from one dump share no storage"},
+			{ID: "C13.R6", Floor: 5, Run: c19r1, Text: "no mutable package-level state (= C19.R1): a result must not depend on what other worlds in the process did"},
 			{ID: "C13.FX", Floor: 1, Run: c13fixture, Text: "fixture control: on checker/testdata/fixture the three rules report exactly the functions named bad* for them and none named ok*"},
 		},
 	})
